@@ -790,7 +790,7 @@ CHECKS = [
     Check("hist_scale", judge_hscale, strategy=strat_hscale, quick=1500, thorough=60000,
           rule="histograms (1-3 dim, uneven dyadic edges, int/float/mixed/zero contents, n_out_of_range) rescaled to non-zero targets; non-trivial = dim>=2 or uneven edges with float contents."),
     Check("hist_add", judge_add, strategy=lambda tier: add_case(), quick=1500, thorough=60000,
-          rule="pairs with equal edges / one shifted edge / one edge array a prefix of the other / other dimension / non-histogram, weights incl. 0 and negatives."),
+          rule="pairs with equal edges / one shifted edge / one edge array a prefix of the other / other dimension / non-histogram, weights incl. 0 and negatives; edge magnitudes 1e-10..1e8, one edge moved by 1-3 ulps, default and explicit edges_abs_tol / edges_rel_tol: accepted iff math.isclose says so for every edge."),
     Check("set_nevents", judge_nevents, strategy=strat_nevents, quick=1000, thorough=40000,
           rule="set_nevents / get_nevents with both include_out_of_range settings; zero events rejected."),
     Check("hist_to_graph", judge_convert, strategy=strat_convert, quick=1200, thorough=50000,
